@@ -42,7 +42,7 @@ def strategy(tier):
         "module": G.module(p), "layout": G.layout_choices(24),
         "faults": st.lists(plan, min_size=1, max_size=2),
         "mode": st.sampled_from(["file", "file", "file", "dir", "multi-first", "multi-middle", "subdir", "dir-twin", "multi-prefix", "file-link", "dir-link"]),
-        "flags": st.sampled_from(["default", "log-debug", "all-off", "some-off", "default", "log-file"]),
+        "flags": st.sampled_from(["default", "log-debug", "all-off", "some-off", "default", "log-file", "log-quiet", "log-root-only"]),
         "exhaustive": st.just(tier == "thorough"),
     })
 
@@ -186,6 +186,17 @@ def run_one(text, mode, res, kind, ctx, flags="default"):
                         "  loggers:\n    cminx:\n      level: DEBUG\n      handlers:\n        - console\n      propagate: no\n"
                         "  root:\n    level: DEBUG\n    handlers:\n      - console\n")
             argv += ["-s", cfg]
+        elif flags in ("log-quiet", "log-root-only"):
+            # logging configurations that keep CMinx's own records away: its logger at CRITICAL, or a section naming only root
+            cfg = sb.path("logging.yaml")
+            with open(cfg, "w") as f:
+                f.write("logging:\n  version: 1\n  formatters:\n    simple:\n      format: '%(message)s'\n"
+                        "  handlers:\n    console:\n      class: logging.StreamHandler\n      level: CRITICAL\n      formatter: simple\n"
+                        "      stream: ext://sys.stdout\n" +
+                        ("  loggers:\n    cminx:\n      level: CRITICAL\n      handlers:\n        - console\n      propagate: no\n"
+                         if flags == "log-quiet" else "") +
+                        "  root:\n    level: CRITICAL\n    handlers:\n      - console\n")
+            argv += ["-s", cfg]
         r = S.run_main(argv, cwd=sb.path("cwd"))
         page = os.path.join(out, "deeper", "faulty.rst") if mode == "subdir" else os.path.join(out, "faulty.rst")
         if mode == "multi-prefix":
@@ -229,7 +240,40 @@ def check_mutant(src, mutated, kind, ctx, mode, res, cross, flags="default"):
     return True
 
 
+def many_inputs(n, kind=0):
+    """n faulty files on one command line of a real subprocess: the exit status must be non-zero, no page may exist."""
+    import sys
+    from vlib import SRC
+    res = Result(nontrivial=True)
+    faults = ["set(x \"unterminated\n", "function(f a\nendfunction(\n", "message(ok))\n", "stray words here\n", "set(y \\q)\n"]
+    with S.Sandbox("c06n") as sb:
+        files = []
+        for i in range(n):
+            p_ = sb.path("in", f"bad_{i:03d}.cmake")
+            os.makedirs(os.path.dirname(p_), exist_ok=True)
+            with open(p_, "w") as f:
+                f.write("function(ok_%d)\nendfunction()\n" % i + faults[kind % len(faults)])
+            files.append(p_)
+        env = dict(os.environ, CMINXDIR=sb.path("cfg"), HOME=sb.path("cfg"), XDG_CONFIG_HOME=sb.path("cfg"))
+        code = f"import sys; sys.path.insert(0, {SRC!r}); import warnings; warnings.simplefilter('ignore'); import cminx; cminx.main(sys.argv[1:])"
+        p = subprocess.run([sys.executable, "-c", code] + files + ["-o", sb.path("out")], cwd=sb.path("cwd"), env=env, capture_output=True)
+        if p.returncode == 0:
+            res.fail("accepted-faulty-input:exit-status-zero-for-many-faulty-inputs", f"{n} faulty inputs on one command line: exit status 0")
+        pages = [f for f in os.listdir(sb.path("out"))] if os.path.isdir(sb.path("out")) else []
+        if any(f.startswith("bad_") for f in pages):
+            res.fail("page-written-for-faulty-file:many-inputs", f"pages {sorted(pages)[:4]} written for faulty inputs")
+    res.labels.append("many-faulty-inputs-in-a-subprocess")
+    return res
+
+
+def extra(ctx):
+    for n, kind in ((1, 0), (2, 1), (255, 2), (256, 2), (256, 0), (257, 3), (512, 2), (256, 4)):
+        ctx.record({"many_inputs": n, "kind": kind}, many_inputs(n, kind))
+
+
 def evaluate(case):
+    if "many_inputs" in case:
+        return many_inputs(case["many_inputs"], case.get("kind", 0))
     res = Result()
     src = R.render(case["module"], case["layout"])
     lx = L.lex(src)
